@@ -109,6 +109,11 @@ def tilt_lands(which):
         a = pr.focus_fixed_sampling(pupil, dx, efl, wvl, odx, S, shift=(sx, sy), method='mdft')
         b = pr.focus_fixed_sampling(pupil, dx, efl, wvl, odx, S, shift=(sx, sy), method='czt')
         check('methods-agree-on-direction', locate(a, odx, odx) == locate(b, odx, odx))
+        # a shift by a fraction of a sample: both methods sample the same displaced image (in modulus)
+        fsx, fsy = float(rng.uniform(-2.5, 2.5)) * odx, float(rng.uniform(-2.5, 2.5)) * odx
+        a = pr.focus_fixed_sampling(pupil, dx, efl, wvl, odx, S, shift=(fsx, fsy), method='mdft')
+        b = pr.focus_fixed_sampling(pupil, dx, efl, wvl, odx, S, shift=(fsx, fsy), method='czt')
+        check('fractional-shift-methods-agree', bool(np.allclose(abs(a), abs(b), atol=1e-8 * abs(a).max())))
     elif which == 'unfocus-fft-route':
         # FFT route, focal plane of ANY parity: a real spot displaced by (py, px) samples from the origin sample unfocuses to
         # exactly py and px waves of tilt across the pupil array, with zero phase at the pupil origin sample, and focusing that
